@@ -108,4 +108,4 @@ class OperationComponent(Component):
         return False
 
     def negate(self):
-        self.negated = True
+        self.negated = not self.negated
